@@ -398,25 +398,25 @@ func Getpid() int {
 	}
 	return os.Getpid()
 }
-func Getppid() int                                        { return os.Getppid() }
-func Getuid() int                                         { return os.Getuid() }
-func Getwd() (dir string, err error)                      { return os.Getwd() }
-func Hostname() (name string, err error)                  { return "simhost", nil }
-func IsExist(err error) bool                              { return os.IsExist(err) }
-func IsNotExist(err error) bool                           { return os.IsNotExist(err) }
-func IsPathSeparator(c uint8) bool                        { return os.IsPathSeparator(c) }
-func IsPermission(err error) bool                         { return os.IsPermission(err) }
-func IsTimeout(err error) bool                            { return os.IsTimeout(err) }
-func LookupEnv(key string) (string, bool)                 { return os.LookupEnv(key) }
-func NewSyscallError(syscall string, err error) error     { return os.NewSyscallError(syscall, err) }
-func SameFile(fi1, fi2 FileInfo) bool                     { return os.SameFile(fi1, fi2) }
-func Setenv(key, value string) error                      { return os.Setenv(key, value) }
-func TempDir() string                                     { return os.TempDir() }
-func Unsetenv(key string) error                           { return os.Unsetenv(key) }
-func UserCacheDir() (string, error)                       { return os.UserCacheDir() }
-func UserConfigDir() (string, error)                      { return os.UserConfigDir() }
-func UserHomeDir() (string, error)                        { return os.UserHomeDir() }
-func FindProcess(pid int) (*Process, error)               { return os.FindProcess(pid) }
+func Getppid() int                                    { return os.Getppid() }
+func Getuid() int                                     { return os.Getuid() }
+func Getwd() (dir string, err error)                  { return os.Getwd() }
+func Hostname() (name string, err error)              { return "simhost", nil }
+func IsExist(err error) bool                          { return os.IsExist(err) }
+func IsNotExist(err error) bool                       { return os.IsNotExist(err) }
+func IsPathSeparator(c uint8) bool                    { return os.IsPathSeparator(c) }
+func IsPermission(err error) bool                     { return os.IsPermission(err) }
+func IsTimeout(err error) bool                        { return os.IsTimeout(err) }
+func LookupEnv(key string) (string, bool)             { return os.LookupEnv(key) }
+func NewSyscallError(syscall string, err error) error { return os.NewSyscallError(syscall, err) }
+func SameFile(fi1, fi2 FileInfo) bool                 { return os.SameFile(fi1, fi2) }
+func Setenv(key, value string) error                  { return os.Setenv(key, value) }
+func TempDir() string                                 { return os.TempDir() }
+func Unsetenv(key string) error                       { return os.Unsetenv(key) }
+func UserCacheDir() (string, error)                   { return os.UserCacheDir() }
+func UserConfigDir() (string, error)                  { return os.UserConfigDir() }
+func UserHomeDir() (string, error)                    { return os.UserHomeDir() }
+func FindProcess(pid int) (*Process, error)           { return os.FindProcess(pid) }
 func StartProcess(name string, argv []string, attr *ProcAttr) (*Process, error) {
 	return os.StartProcess(name, argv, attr)
 }
@@ -439,6 +439,10 @@ func (f *File) Read(b []byte) (int, error) {
 		// the standard input of a simulated process is what its parent attached
 		if env := simhook.CurProcEnv(); env != nil {
 			return env.Stdin().Read(b)
+		}
+		if in := simhook.Stdin(); in != nil {
+			simhook.Yield("stdin-read")
+			return in.Read(b)
 		}
 	}
 	n, err := f.fileOp(&simhook.FSOp{Kind: "read", Len: len(b)}, func() (int64, error) {
@@ -499,6 +503,10 @@ func (f *File) ReadFrom(r io.Reader) (int64, error) { return io.Copy(onlyWriter{
 func (f *File) WriteTo(w io.Writer) (int64, error)  { return io.Copy(w, onlyReader{f}) }
 
 func (f *File) Seek(offset int64, whence int) (int64, error) {
+	if f != nil && f.std == 0 && (simhook.Stdin() != nil || simhook.CurProcEnv() != nil) {
+		// a pipe
+		return 0, &os.PathError{Op: "seek", Path: f.path, Err: syscall.ESPIPE}
+	}
 	return f.fileOp(&simhook.FSOp{Kind: "seek", Off: offset, Flag: whence}, func() (int64, error) {
 		return f.f.Seek(offset, whence)
 	})
